@@ -54,6 +54,25 @@ class Scalar:
         return f"{self.t}:{self.ty}"
 
 
+class Bytes:
+    """[u8; N] / Vec<u8> / [u8]: a list of 8-bit z3 terms (memory images; x86-64 = little endian)"""
+
+    def __init__(self, bs):
+        self.bs = list(bs)
+
+    def __repr__(self):
+        return f"Bytes{self.bs}"
+
+
+class ResultV:
+    def __init__(self, ok, val):
+        self.ok, self.val = ok, val
+
+
+class DoneNoValue(Exception):
+    """the arm reached the evaluator's `program_counter += 1` without storing a variable"""
+
+
 INT_BITS = {"u8": 8, "u16": 16, "u32": 32, "u64": 64, "usize": 64, "i8": 8, "i16": 16, "i32": 32, "i64": 64, "isize": 64}
 
 
@@ -98,6 +117,7 @@ class Mir:
             "FloatCmp": parse_enum_variants(lir_src, "FloatCmp"),
             "Operand": parse_enum_variants(lir_src, "Operand"),
             "IrValue": parse_enum_variants(val_src, "IrValue"),
+            "IrType": parse_enum_variants(val_src, "IrType"),
         }
 
     def parse(self, text):
@@ -160,8 +180,11 @@ def split_args(a):
 
 
 class Interp:
-    def __init__(self, mir, overflow_checks, operand_values):
+    def __init__(self, mir, overflow_checks, operand_values, mem=None, decide=None, stop_block=None):
         self.m = mir
+        self.mem = mem               # model of eval::Memory (c20.MemModel); None = memory calls are unsupported
+        self.decide = decide         # path oracle for switches on symbolic values; None = unsupported
+        self.stop_block = stop_block
         self.ovf = overflow_checks
         self.loud_conds = []       # (description, z3 Bool): the evaluator panics when this holds
         self.operand_values = operand_values   # id(Operand EnumV) -> IrValue EnumV
@@ -177,6 +200,8 @@ class Interp:
         m = re.fullmatch(r"\(\*(.+)\)", p)
         if m:
             r = self.place(m.group(1), env, f)
+            if isinstance(r, Opaque):
+                return r           # e.g. `&(*mem)`: the memory object itself is never looked into
             if not isinstance(r, Ref):
                 raise Unsupported(f"deref of non-reference {p}")
             return r.get()
@@ -189,6 +214,15 @@ class Interp:
             if base.variant != m.group(2):
                 raise Unsupported(f"downcast {base.variant} as {m.group(2)}")
             return base.fields[int(m.group(3))]
+        m = re.fullmatch(r"(.+)\[(_\d+)\]", p)
+        if m:
+            base = self.place(m.group(1), env, f)
+            idx = z3.simplify(self.place(m.group(2), env, f).t)
+            if not isinstance(base, Bytes) or not z3.is_bv_value(idx):
+                raise Unsupported("index " + p)
+            if idx.as_long() >= len(base.bs):
+                raise Loud("index out of bounds")
+            return Scalar(base.bs[idx.as_long()], "u8")
         m = re.fullmatch(r"\((.+)\.(\d+): .*\)", p)
         if m:
             base = self.place(m.group(1), env, f)
@@ -205,6 +239,9 @@ class Interp:
         m = re.fullmatch(r"const (-?\d+)_(\w+)", o)
         if m:
             return Scalar(z3.BitVecVal(int(m.group(1)), INT_BITS[m.group(2)]), m.group(2))
+        m = re.fullmatch(r"const core::num::<impl (\w+)>::BITS", o)
+        if m:
+            return Scalar(z3.BitVecVal(INT_BITS[m.group(1)], 32), "u32")
         if o in ("const true", "const false"):
             return Scalar(z3.BoolVal(o == "const true"), "bool")
         if o.startswith("const "):
@@ -354,6 +391,15 @@ class Interp:
                 val = c.as_long()
             elif z3.is_true(c) or z3.is_false(c):
                 val = 1 if z3.is_true(c) else 0
+            elif self.decide is not None and z3.is_bv(c):
+                other = None
+                for arm in m.group(2).split(", "):
+                    k, tgt = arm.split(": ")
+                    if k == "otherwise":
+                        other = tgt
+                    elif self.decide(c == z3.BitVecVal(int(k), c.size()), f"mir switch {k}"):
+                        return tgt
+                return other
             else:
                 raise Unsupported("switch on a symbolic value")
             other = None
@@ -475,6 +521,72 @@ class Interp:
         if m:
             a = argv[0]
             return Scalar(z3.fpToIEEEBV(a.t), "u32" if m.group(1) == "f32" else "u64")
+        m = re.fullmatch(r"core::(?:num|f32|f64)::<impl (\w+)>::to_(ne|le|be)_bytes", callee)
+        if m:
+            a = argv[0]
+            t = z3.fpToIEEEBV(a.t) if m.group(1) in ("f32", "f64") else a.t
+            n = t.size() // 8
+            bs = [z3.simplify(z3.Extract(8 * i + 7, 8 * i, t)) for i in range(n)]
+            return Bytes(bs[::-1] if m.group(2) == "be" else bs)
+        m = re.fullmatch(r"core::(?:num|f32|f64)::<impl (\w+)>::from_(ne|le|be)_bytes", callee)
+        if m:
+            ty, b = m.group(1), argv[0]
+            if not isinstance(b, Bytes):
+                raise Unsupported("from_bytes of a non-array")
+            bs = b.bs[::-1] if m.group(2) == "be" else b.bs
+            want = {"f32": 4, "f64": 8}.get(ty) or INT_BITS[ty] // 8
+            if len(bs) != want:
+                raise Unsupported("from_bytes width")
+            t = bs[0] if len(bs) == 1 else z3.Concat(*bs[::-1])
+            # a load of exactly the term a store split up gives that term back (keeps solver terms small)
+            t = z3.simplify(t)
+            if ty in ("f32", "f64"):
+                return Scalar(z3.fpBVToFP(t, z3.Float32() if ty == "f32" else z3.Float64()), ty)
+            return Scalar(t, ty)
+        if re.fullmatch(r"<\[u8; \d+\] as Into<Vec<u8>>>::into", callee):
+            return argv[0]
+        if callee == "<Vec<u8> as std::ops::Deref>::deref":
+            v = argv[0].get()
+            return Ref(lambda v=v: v)
+        m = re.fullmatch(r"<&\[u8\] as std::convert::TryInto<&\[u8; (\d+)\]>>::try_into", callee)
+        if m:
+            v = argv[0].get()
+            return ResultV(len(v.bs) == int(m.group(1)), Ref(lambda v=v: v))
+        if re.fullmatch(r"std::result::Result::<&\[u8; \d+\], TryFromSliceError>::unwrap", callee):
+            if not argv[0].ok:
+                raise Loud("unwrap of a slice of the wrong length")
+            return argv[0].val
+        if callee in ("inetnum::asn::Asn::into_u32", "inetnum::asn::Asn::from_u32"):
+            return Scalar(argv[0].t, "u32" if callee.endswith("into_u32") else "Asn")
+        m = re.fullmatch(r"eval::Memory::(offset_by|write|read_slice|copy|allocate)", callee)
+        if m:
+            if self.mem is None:
+                raise Unsupported("memory instruction without a memory model")
+
+            def conc(v):
+                c = z3.simplify(v.t)
+                if not z3.is_bv_value(c):
+                    raise Unsupported("symbolic pointer / size")
+                return c.as_long()
+            op = m.group(1)
+            if op == "offset_by":
+                return Scalar(z3.BitVecVal(self.mem.offset_by(conc(argv[1]), conc(argv[2])), 64), "usize")
+            if op == "allocate":
+                return Scalar(z3.BitVecVal(self.mem.allocate(conc(argv[1])), 64), "usize")
+            if op == "write":
+                v = argv[2].get()
+                self.mem.write(conc(argv[1]), v.bs)
+                return Opaque("()")
+            if op == "read_slice":
+                v = Bytes(self.mem.read_slice(conc(argv[1]), conc(argv[2])))
+                return Ref(lambda v=v: v)
+            self.mem.copy(conc(argv[1]), conc(argv[2]), conc(argv[3]))
+            return Opaque("()")
+        m = re.fullmatch(r"(IrValue::(?:as_vec|from_slice)|IrType::bytes)", callee)
+        if m:
+            f2 = self.m.fn(r"lir::value::<impl at src/lir/value\.rs:[\d: ]+>::%s$" % callee.split("::")[1])
+            env2 = dict(zip(f2["params"], argv))
+            return self.run(f2, "bb0", env2, depth + 1)
         if callee == "<lir::Var as std::clone::Clone>::clone":
             return Opaque("var")
         if callee == "<IrValue as std::clone::Clone>::clone":
@@ -508,6 +620,8 @@ class Interp:
         bb = start
         while True:
             self.steps += 1
+            if depth == 0 and bb == self.stop_block:
+                raise DoneNoValue()
             if self.steps > 2000:
                 raise Unsupported("too many steps")
             stmts = f["blocks"][bb]
@@ -542,12 +656,40 @@ def _arm_entries(mir):
     raise Unsupported("instruction dispatch not found in eval's MIR")
 
 
-def run_instruction(mir, variant, fields, operand_values, overflow_checks):
+def continuation_block(mir):
+    """the block of eval's loop that does `program_counter += 1`: where the Assign arm continues after its insert"""
+    if getattr(mir, "_cont", None):
+        return mir._cont
+    f = eval_fn(mir)
+    entries, _ = arm_entries(mir)
+    seen, todo = set(), [entries["Assign"]]
+    while todo:
+        b = todo.pop()
+        if b in seen:
+            continue
+        seen.add(b)
+        t = f["blocks"][b][-1]
+        m = re.fullmatch(r"_\d+ = HashMap::<lir::Var, IrValue>::insert\(.*\) -> \[return: (bb\d+), unwind.*\];", t)
+        if m:
+            b2 = m.group(1)
+            while len(f["blocks"][b2]) == 1 and re.fullmatch(r"goto -> (bb\d+);", f["blocks"][b2][0]):
+                b2 = re.fullmatch(r"goto -> (bb\d+);", f["blocks"][b2][0]).group(1)
+            mir._cont = b2
+            return b2
+        m = re.search(r"\[return: (bb\d+), unwind", t) or re.fullmatch(r"goto -> (bb\d+);", t)
+        if m:
+            todo.append(m.group(1))
+        for k in re.findall(r"(?:\d+|otherwise): (bb\d+)", t):
+            todo.append(k)
+    raise Unsupported("continuation block of eval's loop not found")
+
+
+def run_instruction(mir, variant, fields, operand_values, overflow_checks, mem=None, decide=None):
     """fields: list of field values of the Instruction variant (EnumV / Opaque); operand_values: [(operand EnumV, IrValue EnumV)].
     Returns ('value', IrValue EnumV, loud_conds) | ('loud', reason, []) | raises Unsupported."""
     f = eval_fn(mir)
     entries, inst_local = arm_entries(mir)
-    it = Interp(mir, overflow_checks, {id(o): v for o, v in operand_values})
+    it = Interp(mir, overflow_checks, {id(o): v for o, v in operand_values}, mem, decide, continuation_block(mir) if mem is not None else None)
     inst = EnumV("Instruction", variant, fields)
     vars_local = None
     # the local holding `vars` is whatever eval_operand gets as first argument in the arm: give every &_N a dummy
@@ -556,6 +698,8 @@ def run_instruction(mir, variant, fields, operand_values, overflow_checks):
         it.run(f, entries[variant], env)
     except Done as d:
         return ("value", d.value, it.loud_conds)
+    except DoneNoValue:
+        return ("novalue", None, it.loud_conds)
     except Loud as l:
         return ("loud", str(l), it.loud_conds)
     return ("loud", "fell off the arm", it.loud_conds)
